@@ -197,8 +197,16 @@ func helpOracle(final *getoptions.VerifDump, text string) []OracleHit {
 		}
 	}
 	// commands
-	for _, k := range n.CommandKeys {
-		if k == n.HelpCommandName {
+	for ci, key := range n.CommandKeys {
+		if key == n.HelpCommandName {
+			continue
+		}
+		// the list shows a command under its display name (Self), which is its key unless changed
+		k := key
+		if ci < len(n.Commands) && n.Commands[ci] != nil && n.Commands[ci].Name != "" {
+			k = n.Commands[ci].Name
+		}
+		if strings.ContainsAny(k, " \t\n\r\f\v|") {
 			continue
 		}
 		cnt := 0
